@@ -5,9 +5,9 @@ Fourier calculus for every N is a statement about numeric matrix entries: NOT de
 import ast
 import re
 
-from ..cfg import walk_no_nested
+from ..cfg import FuncCFG, walk_no_nested
 from ..inline import facts
-from ..model import AnalysisError
+from ..model import AnalysisError, qual
 from ..runner import rule
 
 SH = 'pySDC/helpers/spectral_helper.py'
@@ -233,3 +233,57 @@ def r5(ctx, R):
         R.check(kr == [want], f'get_BC :: {dim}-d: Kronecker product in axis order', w, want, kr)
     row = [ast.unparse(s) for s in ast.walk(fn) if isinstance(s, ast.Assign) and ast.unparse(s.targets[0]) == 'BC[line, :]']
     R.check(len(row) == 2 and all('base.get_BC(kind=kind, **kwargs)' in r for r in row) and 'base = self.axes[axis]' in [ast.unparse(s) for s in walk_no_nested(fn) if isinstance(s, ast.Assign)], 'get_BC :: the 1-d boundary row of THIS axis goes into the requested line of an otherwise zero matrix', w, 'BC[line, :] = self.axes[axis].get_BC(kind, ..)', row)
+
+
+@rule('C17', 'C17.R6', 'ultraspherical conversion chain: C^(p_in) -> C^(p_out) is the product of the one-step conversions S_i for exactly the bases i between the two (min .. max-1), returned as is upwards and inverted downwards; a recursive use passes BOTH bases (an omitted one defaults to 0 and silently converts via the Chebychev base)', floor=4)
+def r6(ctx, R):
+    repo = ctx.repo
+    name = 'UltrasphericalHelper.get_basis_change_matrix'
+    fn = repo.func(SH, name)
+    w = f'{SH}:{name}'
+    R.fn(w)
+    params = [a.arg for a in fn.args.args]
+    R.check('p_in' in params and 'p_out' in params, f'{name} :: takes the ingoing and the outgoing base', w, 'p_in, p_out', params)
+    # (a) the accumulation loop(s): mat = self.get_S(i) @ mat for i in range(lo, hi)
+    loops = [l for l in ast.walk(fn) if isinstance(l, ast.For) and any(isinstance(c, ast.Call) and ast.unparse(c.func) == 'self.get_S' for c in ast.walk(l))]
+    spans = []
+    ok_body = bool(loops)
+    for l in loops:
+        it = l.iter
+        okr = isinstance(it, ast.Call) and ast.unparse(it.func) == 'range' and len(it.args) == 2
+        lo, hi = (ast.unparse(it.args[0]), ast.unparse(it.args[1])) if okr else ('?', '?')
+        g = ' and '.join(sorted(ast.unparse(t) if pol else f'not ({ast.unparse(t)})' for t, pol in FuncCFG(fn).guards.get(id(l), ())))
+        spans.append((lo, hi, g))
+        body = [s for s in l.body if isinstance(s, ast.Assign)]
+        ok_body = ok_body and len(body) == 1 and isinstance(body[0].value, ast.BinOp) and isinstance(body[0].value.op, ast.MatMult) and ast.unparse(body[0].value.left) == f'self.get_S({ast.unparse(l.target)})' and ast.unparse(body[0].value.right) == ast.unparse(body[0].targets[0])
+    norm = lambda s: s.replace(' ', '').replace('[', '').replace(']', '')
+    sym = {(norm(lo), norm(hi)) for lo, hi, g in spans}
+    ok_span = sym == {('min(p_in,p_out)', 'max(p_in,p_out)')} or sym == {('min(p_out,p_in)', 'max(p_out,p_in)')} or (
+        sym == {('p_in', 'p_out'), ('p_out', 'p_in')} and all(g for lo, hi, g in spans))
+    if not ok_span and sym == {('p_in', 'p_out')}:
+        # one direction by the loop, the other by a recursive call with the two bases exchanged
+        rec = [c for c in ast.walk(fn) if isinstance(c, ast.Call) and ast.unparse(c.func) == 'self.get_basis_change_matrix']
+        kw = [{k.arg: ast.unparse(k.value) for k in c.keywords} for c in rec]
+        ok_span = len(rec) == 1 and kw[0].get('p_in') == 'p_out' and kw[0].get('p_out') == 'p_in' and all(g for lo, hi, g in spans)
+    R.check(ok_body, f'{name} :: each step multiplies the next one-step conversion from the LEFT: mat = S_i @ mat', w, 'mat_fwd = self.get_S(i) @ mat_fwd', [ast.unparse(l)[:120] for l in loops])
+    R.check(ok_span, f'{name} :: the product runs over the bases min(p_in, p_out) .. max(p_in, p_out) - 1', w, 'range(min([p_in, p_out]), max([p_in, p_out])) (or one range per direction)', spans)
+    # (b) upward: returned as is; downward: inverted
+    cfg = FuncCFG(fn)
+    rets = [(ast.unparse(s.value), [ast.unparse(t) if pol else f'not ({ast.unparse(t)})' for t, pol in cfg.guards.get(id(s), ())]) for s in cfg.stmt_of.values() if isinstance(s, ast.Return)]
+    up = [r for r in rets if any(norm(g) in ('p_out>p_in', 'p_in<p_out') for g in r[1])]
+    down = [r for r in rets if any(norm(g) in ('not(p_out>p_in)', 'not(p_in<p_out)', 'p_out<=p_in', 'p_in>=p_out') for g in r[1])]
+    inv = [s for s in ast.walk(fn) if isinstance(s, ast.Call) and ast.unparse(s.func).endswith('linalg.inv')]
+    R.check(len(up) == 1 and len(down) == 1 and len(inv) == 1 and len(rets) == 2, f'{name} :: upward conversion returns the product, downward conversion returns its inverse', w, 'if p_out > p_in: return mat_fwd; else: return inv(mat_fwd)', rets)
+    # (c) every use of the conversion inside the helper classes that sits in a function with both bases passes both
+    n = 0
+    for m, ci, f in repo.all_functions():
+        if m.relpath != SH:
+            continue
+        fparams = {a.arg for a in f.args.args}
+        for c in ast.walk(f):
+            if isinstance(c, ast.Call) and isinstance(c.func, ast.Attribute) and c.func.attr == 'get_basis_change_matrix' and {'p_in', 'p_out'} <= fparams:
+                n += 1
+                kws = {k.arg for k in c.keywords}
+                ok = {'p_in', 'p_out'} <= kws or len(c.args) >= 2 or any(k.arg is None for k in c.keywords)
+                R.check(ok, f'{(ci.name + ".") if ci else ""}{f.name} :: a nested conversion names both bases', qual(m, ci, f), 'get_basis_change_matrix(p_in=.., p_out=..)', ast.unparse(c))
+    R.ok(f'{SH} :: nested conversions inside functions that take both bases', SH, found=f'{n} call(s)')
